@@ -614,9 +614,11 @@ def r037(an, rep):
                 enc = (g, n)
     if enc is None:
         # a loop that re-lays out the blocks but is bounded by a constant instead of running until nothing changed
+        width_fns = {sf.name} | {h.name for h in an.closure("to_code") if isinstance(h.node, ast.FunctionDef) and len(h.params) == 2
+                                 and any(isinstance(x, ast.Attribute) and x.attr == "_n_args_override" for x in ast.walk(h.node))}
         for g in an.closure("to_code"):
             for n in g.node.body:
-                if isinstance(n, ast.For) and any(isinstance(x, ast.Call) and isinstance(x.func, ast.Name) and x.func.id == sf.name for x in ast.walk(n)) \
+                if isinstance(n, ast.For) and any(isinstance(x, ast.Call) and isinstance(x.func, ast.Name) and x.func.id in width_fns for x in ast.walk(n)) \
                         and any(isinstance(x, ast.Assign) and isinstance(x.value, ast.Constant) and x.value.value is True for x in ast.walk(n)) \
                         and isinstance(n.iter, ast.Call) and isinstance(n.iter.func, ast.Name) and n.iter.func.id == "range":
                     rep.add("R03.7", f"{g.qual}::re-layout is iterated until no jump changes size", False, loc(g.module, n),
